@@ -3,7 +3,7 @@
    src/varintTagged.c on every run (coq/gen/Src_tagged.v; meaning of the c_*
    operations: CSem.v).  A buffer is a byte list, the function returns the C
    return value w and the final buffer; the encoding is its first w bytes. *)
-Require Import VV.Base VV.CSem VV.TaggedSrcProps.
+Require Import VV.Base VV.CSem VV.TaggedSrcPropsPut.
 Require Import VVgen.Src_tagged.
 Local Open Scope Z_scope.
 
